@@ -118,11 +118,12 @@ Alphabet ==
          \cup {E("ReadStream", [name |-> n]) : n \in StreamNamesQ}
          \cup {Cre(T, TabT), Drp(T), E("RemoveSignature", [x |-> 0]), E("AddSignature", [x |-> 0]),
                E("Flush", [x |-> 0]), E("IntoInner", [x |-> 0]), E("Reopen", [x |-> 0])}
-    [] Cfg = "streamsfull" ->   \* C11 (thorough): all names and sizes
-         {E("WriteStream", [name |-> n, data |-> d]) : n \in StreamNames, d \in {"b", "b01", "g4096_7", "g8193_3"}}
+    [] Cfg = "streamsfull" ->   \* C11 (thorough): all names; every name next to each of the probe names (see PoolBound)
+         {E("WriteStream", [name |-> n, data |-> "b01"]) : n \in StreamNames}
+         \cup {E("WriteStream", [name |-> n, data |-> d]) : n \in {<<97>>, Packable(62), Packable(63), T, <<233>>}, d \in {"b", "g4096_7", "g8193_3"}}
          \cup {E("RemoveStream", [name |-> n]) : n \in StreamNames}
          \cup {E("ReadStream", [name |-> n]) : n \in StreamNames}
-         \cup {Cre(T, TabT), Drp(T), Ins(T, <<<<IntV(1), sa>>>>), E("RemoveSignature", [x |-> 0]), E("AddSignature", [x |-> 0]),
+         \cup {Cre(T, TabT), Drp(T), E("RemoveSignature", [x |-> 0]), E("AddSignature", [x |-> 0]),
                E("Flush", [x |-> 0]), E("IntoInner", [x |-> 0]), E("Reopen", [x |-> 0])}
     [] Cfg = "limits" ->        \* C20, scaled: 2 columns, 3 rows, a pool that fills up; not replayed (scaled constants)
          {Cre(T, TabT), Cre(U, <<ColK, ColV, ColW>>), Drp(T)}
@@ -205,7 +206,11 @@ MCInit ==
 MCNext == \E e \in Alphabet : Do(e)
 MCSpec == MCInit /\ [][MCNext]_vars
 
-PoolBound == Len(pool) <= (IF Cfg = "catalog" THEN 90 ELSE 40) /\ Cardinality(DOMAIN ustreams \ {SIG}) <= 2
+\* names that could alias another one under the packing or under the container's comparison
+ProbeNames == {<<97>>, <<48, 48>>, <<14336>>, T, <<233>>, Packable(62), <<95, 95>>, <<18431>>}
+PoolBound == /\ Len(pool) <= (IF Cfg = "catalog" THEN 90 ELSE 40)
+             /\ Cardinality(DOMAIN ustreams \ {SIG}) <= 2
+             /\ (Cfg = "streamsfull" /\ Cardinality(DOMAIN ustreams \ {SIG}) = 2 => (DOMAIN ustreams \cap ProbeNames) # {})
 
 -----------------------------------------------------------------------------
 \* JSON shape of the abstract state (tables and streams as lists; the harness sorts by name)
